@@ -36,6 +36,13 @@ Theorem C12_taiko_idempotent : forall i : taiko_in,
 Proof. exact taiko_generate_idem. Qed.
 Print Assumptions C12_taiko_idempotent.
 
+(* osu!: the hypothesis osu_filled of C12_osu_state_consistent is only needed for the accuracy searches
+   (an accuracy together with fewer than two provided hit results); everywhere else it is a theorem *)
+Theorem C12_osu_filled_direct : forall i : osu_in, osu_in_ok i ->
+  oi_acc i = None \/ osu_two_provided i = true -> osu_filled i.
+Proof. exact osu_filled_direct. Qed.
+Print Assumptions C12_osu_filled_direct.
+
 (* non-vacuity: a concrete accuracy-only taiko input is accepted and fills *)
 Example C12_taiko_example :
   let i := mk_taiko_in 100 4294967295 None None None (Some 3) (Some 0x1.ccccccccccccdp-1%float) true in
